@@ -151,14 +151,29 @@ def validate(module, judge, trace_file, work, timeout=1800, heap="8g", extra_env
     if res["rc"] != 0 or not os.path.exists(out):
         raise Machinery("trace validation failed rc=%s module=%s judge=%s\n%s" %
                         (res["rc"], module, judge, res["out"][-6000:]))
-    verdicts = []
+    verdicts, rows = [], []
     with open(out) as f:
         for line in f:
             line = line.strip()
             if line:
-                verdicts.append(json.loads(line)["v"])
+                row = json.loads(line)
+                rows.append(row)
+                verdicts.append(row.get("v"))
     res["verdicts"] = verdicts
+    res["rows"] = rows
     return res
+
+
+def ring_to_complex(p):
+    """Float image of an element <<c0..c7, k>> of Z[w][1/sqrt2], w = e^{i pi/8} (spec/Ring16.tla)."""
+    import cmath
+    import math
+    return sum(c * cmath.exp(1j * math.pi * j / 8) for j, c in enumerate(p[:8])) / (math.sqrt(2) ** p[8])
+
+
+def close(x, y, scale=1.0):
+    """The one float comparison of the numeric checks: |x - y| <= 1e-9 * max(1, scale)."""
+    return abs(x - y) <= 1e-9 * max(1.0, scale)
 
 
 def read_ndjson(path):
